@@ -53,6 +53,10 @@ func (f *Forward) walk(v ssa.Value, depth int, via []string) {
 		switch x := r.(type) {
 		case *ssa.Phi:
 			f.walk(x, depth, via)
+		case *ssa.Extract:
+			if x.Index == 0 {
+				f.walk(x, depth, via)
+			}
 		case *ssa.ChangeType:
 			f.walk(x, depth, via)
 		case *ssa.MakeInterface:
